@@ -1,7 +1,7 @@
 (* Examples/C07_inhabited.v — the hypotheses of the C07 theorems are inhabited in every one of the
    36 styles (3 key/value styles x 3 field separators x trailing semicolon x repeated keys), with
    multi-valued attributes, flags, reserved characters and extra columns. *)
-From GV Require Import Base.Prelude Base.PyStr Base.Utf8 Base.WordTable Model.DB Model.Parser Model.Grammar.
+From GV Require Import Base.Prelude Base.PyStr Base.Utf8 Base.WordTable Model.DB Model.Parser Model.Grammar Proofs.C07Nonstrict.
 Open Scope N_scope.
 
 Definition all_styles : list style :=
@@ -26,4 +26,32 @@ Example C07_roundtrip_computed :
   forallb (fun st => match feature_from_line isword (render_line st (ex_feature st)) None true with
                      | Ok g => str_eqb (feature_str to_quote g) (render_line st (ex_feature st))
                      | Err _ => false end) all_styles = true.
+Proof. vm_compute. reflexivity. Qed.
+
+(* ---- strict=False ---- *)
+Definition solid_b (w : list N) : bool := match w with [] => false | _ => forallb (fun c => negb (is_space c)) w end.
+Definition blank_b (w : list N) : bool := forallb is_space w.
+
+Lemma solid_b_spec w : solid_b w = true -> solid w.
+Proof.
+  unfold solid_b, solid. destruct w as [|c w]; [discriminate|]. intros H. split; [discriminate|].
+  rewrite forallb_forall in H. intros x Hx. apply negb_true_iff. apply H. exact Hx.
+Qed.
+Lemma blank_b_spec w : blank_b w = true -> blank w.
+Proof. unfold blank_b, blank. rewrite forallb_forall. auto. Qed.
+
+Definition ns_feature (st : style) : feature :=
+  mkFeature [99;104;114;49] [46] [103;101;110;101] (Some 5%Z) None [46] [43] [46] (ex_attrs (st_kv st)) []
+            (canon_dialect st (ex_attrs (st_kv st))) true false.
+
+(* hypotheses of C07_nonstrict, as booleans, hold in all 36 styles (the key=value example value holds a
+   TAB, which is percent-encoded; no raw line-break character) *)
+Example C07_nonstrict_inhabited :
+  forallb (fun st => let f := ns_feature st in
+     wf_feature st f && forallb solid_b [f_seqid f; f_source f; f_ftype f; f_score f; f_strand f; f_frame f]
+     && blank_b [32;32] && blank_b [10;32;13;10] && blank_b [32;8232;12]
+     && forallb (fun c => negb (is_lb c)) (render_attrs st (f_attrs f))
+     && match feature_from_line_nonstrict isword (spaced [32;32] [10;32;13;10] [32;8232;12] st f) None true,
+              feature_from_line isword (render_line st f) None true with
+        | Ok a, Ok b => str_eqb (feature_str to_quote a) (feature_str to_quote b) | _, _ => false end) all_styles = true.
 Proof. vm_compute. reflexivity. Qed.
